@@ -212,4 +212,7 @@ func genC03(g *Gen) {
 			emit(int32(T), v, l, "rand-"+mk+"-"+c03HB(h))
 		}
 	}
+
+	// (4) widening: raw arguments against the debug build (c03raw.go)
+	c03GenRaw(g)
 }
